@@ -1,5 +1,51 @@
-/- C15 (placeholder while the correspondence is brought up) -/
-import PS.Model.Parse
+/-
+  C15 — Textual types and programs parse to the objects they denote.
+  Property theorems only (model: PS/Model/Parse.lean, notation and ⟦·⟧: PS/Model/TyExpr.lean,
+  helper lemmas: PS/Proofs/ParseType.lean, PS/Proofs/ParseProg.lean).
+-/
+import PS.Proofs.ParseType
 namespace PS.C15
-theorem C15_placeholder : True := trivial
+open PS TyExpr
+
+/-! ## types -/
+
+/-- **Token level.**  For every expression `e` of the documented notation (any nesting; names are
+    words, `optional` is not a generic's name), the stack / infix-stack / or_flag machine of
+    `auto_type`, run on the token stream of `e`, returns exactly the object `⟦e⟧`. -/
+theorem C15_type_tokens (e : TyExpr) (hwf : e.wf = true) :
+    autoTypeToks e.toks = .ok e.denote :=
+  top_of_I (parse_all e hwf).2.1
+
+/-- n-ary function types are right-nested arrows: `a -> b -> c` denotes `Arrow(a, Arrow(b, c))`,
+    and this is what the parser returns. -/
+theorem C15_type_arrows_right (a b c : TyExpr) (h : (arrow a (arrow b c)).wf = true) :
+    autoTypeToks (arrow a (arrow b c)).toks
+      = .ok (TyO.arrow a.denote (TyO.arrow b.denote c.denote)) := by
+  rw [C15_type_tokens _ h]; rfl
+
+/-- a parenthesised arrow on the left is an argument of function type -/
+theorem C15_type_arrows_left (a b c : TyExpr) (h : (arrow (arrow a b) c).wf = true) :
+    autoTypeToks (arrow (arrow a b) c).toks
+      = .ok (TyO.arrow (TyO.arrow a.denote b.denote) c.denote) := by
+  rw [C15_type_tokens _ h]; rfl
+
+/-- the alternatives of `a | b` are those of `a` and those of `b` (in the order chosen by the
+    library's `__or__`; equality of Sum objects ignores the order) -/
+theorem C15_union_members (a b : TyO) : (members (tyOr a b)).Perm (members a ++ members b) := by
+  obtain ⟨la, ka⟩ := a
+  obtain ⟨lb, kb⟩ := b
+  cases la <;> cases lb <;> simp [tyOr, members] <;>
+    first
+    | exact List.perm_append_comm
+    | exact (List.perm_append_singleton _ _).symm
+
+-- non-vacuity: `'a list -> ('a -> 'b[int | bool]) -> 'b[int | bool] optional`
+def exFb : TyExpr := .fvar "b".toList (.union (.prim "int".toList) (.prim "bool".toList))
+def exE : TyExpr :=
+  arrow (.generic "list".toList (.var "a".toList)) (arrow (arrow (.var "a".toList) exFb) (.optional exFb))
+example : exE.wf = true ∧ autoTypeToks exE.toks = .ok exE.denote ∧
+    render (fun k => if k % 3 = 0 then 1 else 0) exE
+      = " 'a list-> ('a-> 'b[int |bool] )->'b [int| bool]optional ".toList :=
+  ⟨by decide, C15_type_tokens _ (by decide), by decide +kernel⟩
+
 end PS.C15
